@@ -14,6 +14,11 @@ def expectedRequestGuards : List String :=
 def expectedCounterSites : List (String × Int × String) :=
   [("Run", -1, "test amUnchoking != 0"), ("unchoke", 1, "store 1"), ("unchoke", -1, "store 0")]
 
+/-- the head-drop test: `len(peer.requested) >= reqQ`, the right-hand side being the package
+    constant itself — not a variable, not a field of the peer (nothing the remote says, such
+    as the `reqq` of its extended handshake, may move our queue limit) -/
+def expectedHeadDropLimit : String := ">= const reqQ"
+
 /-- the three writes and the load in NumUnchoking -/
 def expectedCounterRefs : Nat := 4
 
